@@ -41,6 +41,12 @@ def records(rnd, thorough):
                         # history: an earlier result of the same conversion was modified in place by its owner
                         first = logic.mvarray(*strs)
                         np.bitwise_xor(first, 3, out=first)
+                        # ... and so was the list the public interpret() returned for the same strings
+                        for sx in strs:
+                            lst = logic.interpret(sx)
+                            if isinstance(lst, list):
+                                lst.reverse()
+                                lst[:] = [3 - v if isinstance(v, int) and v in (0, 3) else v for v in lst]
                     a = logic.mvarray(*strs)
                     return dict(got=np.asarray(a).reshape(-1).astype(int).tolist(), gshape=list(np.asarray(a).shape))
                 rec('mvarray', f, strs=[list(s) for s in strs])
